@@ -301,6 +301,18 @@ def _cells():
     OK("in:apply_blur_fft:periodic", "qslst.apply_blur_fft", [IMG, {"gen": "real", "m": 3, "n": 3, "seed": 2}],
        {"boundary": "periodic"})
     OK("in:qslst_restore_fft:periodic", "qslst.qslst_restore_fft", [IMG, {"gen": "real", "m": 3, "n": 3, "seed": 2}, 0.1])
+    # boundary values of the scalar parameters and the smallest operands
+    psf1 = {"gen": "realnd_const", "shape": [1, 1], "c": 1.0}
+    OK("in:qslst_restore_fft:lam0_psf1x1", "qslst.qslst_restore_fft", [IMG, psf1, 0.0])
+    OK("in:qslst_restore_fft:lam_large", "qslst.qslst_restore_fft", [IMG, {"gen": "real", "m": 3, "n": 3, "seed": 2}, 10.0])
+    OK("in:qslst_restore_fft:1px", "qslst.qslst_restore_fft", [{"gen": "realnd", "shape": [1, 1, 4], "seed": 1}, psf1, 0.5])
+    OK("in:apply_blur_fft:psf1x1", "qslst.apply_blur_fft", [IMG, psf1])
+    OK("in:apply_blur_fft:1px", "qslst.apply_blur_fft", [{"gen": "realnd", "shape": [1, 1, 4], "seed": 1}, psf1])
+    OK("in:qslst_restore_matrix:lam0", "qslst.qslst_restore_matrix",
+       [{"gen": "realnd", "shape": [1, 2, 4], "seed": 1}, {"gen": "realnd_const", "shape": [2, 2], "c": 1.0, "eye": True}, 0.0])
+    OK("in:build_psf_gaussian:r0", "qslst.build_psf_gaussian", [0, 1.0])
+    OK("in:build_psf_motion:len1", "qslst.build_psf_motion", [1, 0.0])
+    OK("in:rgb_to_quat:real_part", "qslst.rgb_to_quat", [{"gen": "realnd", "shape": [2, 1, 3], "seed": 1}], {"real_part": 0.0})
     OK("in:qslst_restore_matrix:1px", "qslst.qslst_restore_matrix",
        [{"gen": "realnd", "shape": [1, 1, 4], "seed": 1}, {"gen": "real", "m": 1, "n": 1, "seed": 2}, 0.1])
     return bad, good
